@@ -8,7 +8,7 @@ export CARGO_NET_OFFLINE=true CARGO_TARGET_DIR=$WT/target
 cd "$WT" || exit 2
 git checkout -q -- . ; rm -f "$DEMO"
 PKG=$(echo "$DEMO" | cut -d/ -f1)
-cp "$SEED/demo.rs" "$DEMO"
+mkdir -p "$(dirname "$DEMO")"; cp "$SEED/demo.rs" "$DEMO"
 echo "== demo on clean tree"; cargo test -p $PKG --test seed_demo --offline $EXTRA 2>&1 | grep -E "^test result|error\[" | head -3
 git apply "$SEED/patch.diff" || { echo "PATCH DOES NOT APPLY"; rm -f "$DEMO"; exit 3; }
 echo "== demo with patch"; cargo test -p $PKG --test seed_demo --offline $EXTRA 2>&1 | grep -E "^test result|error\[" | head -3
